@@ -231,6 +231,8 @@ func (x *ex) equal(want, got proto.Message, oracle, sigPrefix, what string) bool
 		if i := strings.LastIndex(sp, "."); i >= 0 {
 			sp = sp[i+1:]
 		}
+		// the shrinker accepts any failure of the same oracle: keep it inside the class
+		oracle += "-" + sp
 	}
 	x.fail(oracle, sigPrefix+":"+sp, "%s: decoded message differs from the original in field %s\n want: %s\n got:  %s", what, p, short(want), short(got))
 	return false
@@ -378,6 +380,14 @@ func (x *ex) pooled(kind string, m proto.Message, enc []byte, pa *PoolArg) {
 	if !ok {
 		return
 	}
+	refPrev := newKind(kind)
+	if err := proto.Unmarshal(encPrev, refPrev); err != nil {
+		x.fail("marshal-wire-invalid", "wire-invalid:"+kind, "protobuf-go cannot parse the codec's encoding of %s: %v", kind, err)
+		return
+	}
+	if !x.equal(prev, refPrev, "marshal-wire-mismatch", "wire:"+kind, "codec.Marshal then protobuf-go Unmarshal of "+kind) {
+		return
+	}
 	safe := pa.Flavor == "safe"
 	fl := "codec"
 	if safe {
@@ -417,6 +427,10 @@ func (x *ex) pooled(kind string, m proto.Message, enc []byte, pa *PoolArg) {
 		return o
 	}
 	o := poolGet(kind)
+	// Which object the pool hands out here depends on earlier steps and on the P the goroutine runs
+	// on; start from a clean one so that the step is a function of its arguments. The recycling
+	// under test happens below, inside the step.
+	o.Reset()
 	defer func() {
 		switch {
 		case loose || !safe:
@@ -655,7 +669,6 @@ func (x *ex) sRead(s *cstream, n int) {
 			return
 		}
 		x.out.Probe("stream-verified")
-		x.dig.Add(uint64(len(s.got)))
 	}
 }
 
@@ -696,6 +709,12 @@ func (x *ex) finishStreams() {
 		for !s.eof && !x.failed() {
 			x.sRead(s, 32*1024)
 		}
+	}
+	// how many bytes one Read returns (and so at which step EOF shows) is the decoder's business
+	// (zstd decodes ahead on goroutines): the outcome enters the digest here, in stream order
+	for _, s := range x.order {
+		x.dig.Add(uint64(s.id))
+		x.dig.Add(uint64(len(s.got)))
 	}
 }
 
